@@ -78,6 +78,9 @@ func discharge(frs []*FuncResult, timeout time.Duration, coverToo bool) []*OblRe
 				if o.Cover && to > 5*time.Second {
 					to = 5 * time.Second
 				}
+				if o.Kind == "lemma" {
+					to = 4 * timeout // pure arithmetic lemmas: few, and cvc5 needs a few seconds for some
+				}
 				r := Solve(script, to, false)
 				ok := r.Status == "unsat"
 				if o.Cover {
